@@ -292,3 +292,70 @@ def _short_callee(s):
 
 def rule_borrow_arc(cx, tier):
     return rule_borrow(cx, tier, "arc")
+
+
+# ---------------------------------------------------------------------------------------------
+# R-RECURSIVE-READ (C19): no second read lock on a container whose read lock the thread already holds
+
+def rule_recursive_read(cx, tier):
+    r = RuleResult("R-RECURSIVE-READ", "under the multi-threaded build a container's lock is a fair RwLock: a thread that "
+                                       "holds a read lock and asks for another read lock on the same container blocks behind a "
+                                       "writer that queued in between, and the writer waits for the first read lock -- a "
+                                       "deadlock on a single container. So while a shared guard of a list / map handle is live, "
+                                       "no method of the *same handle* that takes its own (shared) lock is called")
+    from .narrow import Sym, place_fields as pf
+    bi = BorrowInfo(cx)
+    n_pairs = 0
+    for fn in cx.F.fns.values():
+        if fn.crate.uname != "koto_runtime" or fn.derived:
+            continue
+        guards = guard_locals(fn, bi.types)
+        shared = {g: v for g, v in guards.items() if v[1] == "shared" and v[0] in ("SmallVec<[KValue]>", "ValueMap")}
+        if not shared:
+            continue
+        at_term = live_guards(cx, fn, guards)
+        du = cx.du(fn)
+        sym = Sym(cx, fn)
+        label = cx.label(fn)
+
+        def handle_of_guard(g):
+            d = du.single_def(g)
+            if d is None or d[2] != "call" or not d[3].args:
+                return None
+            c = d[3]
+            if not bi.direct.get(c.resolved) and c.short.rsplit("::", 1)[-1] not in ("data", "data_mut"):
+                return None
+            p = op_place(c.args[0])
+            return sym.canon(p[0], pf(p)) if p is not None else None
+        for c in fn.calls():
+            live = [g for g in at_term[c.bb] if g in shared]
+            if not live or not c.args:
+                continue
+            t = c.resolved
+            if t not in cx.F.fns:
+                continue
+            tq = cx.F.fns[t]
+            if not (tq.qual.startswith("koto_runtime::KList::") or tq.qual.startswith("koto_runtime::KMap::")):
+                continue
+            # does the method take the data lock itself (directly or through one wrapper level)
+            takes = any(T in ("SmallVec<[KValue]>", "ValueMap") for (T, m) in bi.direct.get(t, ())) or \
+                any(any(T in ("SmallVec<[KValue]>", "ValueMap") for (T, m) in bi.direct.get(c2.resolved, ()))
+                    for c2 in tq.calls())
+            if not takes:
+                continue
+            p = op_place(c.args[0])
+            h2 = sym.canon(p[0], pf(p)) if p is not None else None
+            for g in live:
+                n_pairs += 1
+                r.instances += 1
+                h1 = handle_of_guard(g)
+                if h1 is None or h2 is None or h1 != h2:
+                    continue
+                r.nontrivial += 1
+                r.add(Finding("R-RECURSIVE-READ", label, f"{h1}:{tq.qual.rsplit('::', 1)[-1]}",
+                              f"`{h1}.{tq.qual.rsplit('::', 1)[-1]}()` takes the lock of `{h1}` while this function already holds "
+                              f"a read guard of the same container (`{fn.local_name(g) or '_' + str(g)}`): with a writer "
+                              f"queued in between, reader and writer wait for each other", fn.file, c.line))
+    r.analysed = {"shared_guard_x_handle_method_pairs": n_pairs}
+    r.floor("live shared guard x handle method call pairs", n_pairs, 5)
+    return r
